@@ -88,6 +88,16 @@ class Ctx:
                     self.vacuous.append(a)
         return res
 
+    def judge(self, client: str, cases: list, invariants, consts=None, workers=16, tag=None, timeout=900):
+        """Batch judgement by TLC (spec/lib/Judge.tla idiom): `client` is a module that EXTENDS Judge and
+        defines the invariants; returns TLC's verdict records [{case (1-based), clause}] and Tell records."""
+        tag = tag or f"j{len(self.tlc_runs)}"
+        f = self.datafile(f"cases_{tag}.json", cases)
+        m, cf = tlcmod.gen(self.work / tag, f"MC_{client}", client, consts or {}, spec="JSpec",
+                           invariants=list(invariants))
+        res = self.tlc(m, cf, workers=workers, env={"VERIF_CASES": f}, allow_violation=False, timeout=timeout)
+        return res.records
+
     def datafile(self, name: str, obj) -> str:
         """Write a JSON file for TLC to read with JsonDeserialize(IOEnv.X)."""
         p = self.work / name
